@@ -28,6 +28,19 @@ PROPS = {
         'level_note': 'Trusted: Coq kernel + vm_compute, the harness. The wire clause (bare ACK / nothing on the wire) is covered by the datagram connection model of C05.',
         'explanation': 'Theorems: IsNoResponseCode model equals the RFC 7967 class/bit decision for every code and every value (unbounded), only bits 1,3,4 matter, other classes always pass, the response writer refuses exactly per the first No-Response option. Correspondence: exhaustive bit tables for all 256 codes x values 0..63, boundary/random 32-bit values, 16-bit codes, ResponseWriter.SetResponse over generated request option lists.',
     },
+    'C14': {
+        'run_vo': 'Map/Run.vo', 'props_vo': 'Properties/C14.vo', 'level': 'proof',
+        'classes': {1: 'history-not-linearizable', 2: 'store-if-absent-two-winners', 3: 'callback-not-on-current-value',
+                    4: 'sweep-removed-or-replaced-live-entry', 5: 'call-hung'},
+        'trusted': ['hooks pkg/sync/yield_verif.go, pkg/cache/yield_verif.go (build tag verif): verifYield at the boundaries between critical sections',
+                    'cooperative scheduler harness/sched.go (goroutine ids from runtime.Stack); atomicity of one critical section rests on sync.RWMutex',
+                    'brute-force linearizability checker Map/Spec.v lin_check (evaluates the property on observed histories; not proved complete/sound w.r.t. Interleave.linearizable)'],
+        'assumptions': ['interleavings at critical-section granularity; Element.ValidUntil treated as immutable during a run; time.Now() inside Cache.Load/LoadOrStore abstracted to the start of the run (element deadlines are >= 10 h away from it)',
+                        'Range/CheckExpirations are modelled as one atomic read per iteration step, the key order being the one Go\'s map iterator produced (oracle); sweep steps whose key the harness cannot observe are effect-free'],
+        'level_text': 'Coq theorems (Properties/C14.v): general linearisation-point lemma (Base/Interleave.v) and its instantiation over the full sync.Map/cache.Cache API for all thread counts, programs, keys and schedules; store-if-absent has exactly one winner; callbacks are shown the current value; every sweep step removes only the examined, still-present, expired entry; refutation witnesses for the two-section LoadOrStore and the delete-by-key sweep. Model tied to the Go code by forcing every schedule of small configurations (2 threads x <=2 calls x <=2 keys, full API) through verif yields and comparing call/return histories with exec, plus hook-free lock-holding-callback barrier runs.',
+        'level_note': 'Proof over all interleavings at critical-section granularity; atomicity of one section rests on sync.RWMutex. Trusted: Coq kernel + vm_compute, the yield hooks, the cooperative scheduler, the linearizability checker used on observed histories.',
+        'explanation': 'Theorems: Interleave.lp_linearizable; C14_map_linearizable (+ macro-step variant); C14_store_if_absent; C14_callbacks_see_current; C14_sweep_safe; C14_store_if_absent_refuted / C14_sweep_refuted about the old shapes. Correspondence: all schedules of 2-thread configurations over the full API forced on the real code and compared event by event with the model; barrier-amplified store-if-absent runs checked for linearizability.',
+    },
 }
 
 NOT_APPLICABLE = {}
